@@ -24,7 +24,7 @@ CLAIMED = {
          "DESIGN.md section 4, C04"),
  "C05": ("exploration", "shadow-ledger invariant checking over generated programs, garbage loops and host-API allocator histories (proptest-driven), with an independent reachability walker",
          "Every allocator event (request, alloc, dealloc, refusal - hook) of generated table-heavy programs under limits 4 KiB..1 MiB, of bounded-live-data garbage loops run for n and 10n iterations, and of host-API histories (strings, tables, guards, stack, gc, clear, set_memory_limit) is replayed into a shadow ledger: counter == outstanding charges (+ the request being served), never above the limit, refusals change nothing; after a final collection the live object list must equal the set reachable from stack/globals/frames/open upvalues/guards computed by an independent walker; after clear the counter is 0 and nothing is outstanding; OutOfMemory is accepted only if reachable bytes + request exceed half the limit; garbage loops must not fail for any n.",
-         "The ordered key list of tables and the upvalue list of closures are plain Vecs outside the allocator and are not in the ledger (observation, not asserted). The byte estimate of the reachable-bytes OOM rule has a factor 2 of slack; the exact forms of the rule are the schedule differential under a limit (natural trigger vs. collect at every allocation vs. no collection but the one before refusing), the retained-set garbage loops (must not fail when retained bytes + 6 KiB fit) and the retry of every refused host request after an explicit collection.",
+         "The ordered key list of tables and the upvalue list of closures are plain Vecs outside the allocator and are not in the ledger (observation, not asserted). 'Refused only if reachable data + request do not fit' is asserted in its exact differential forms: the schedule differential under a limit (natural trigger vs. collect at every allocation vs. no collection but the one before refusing), the retained-set garbage loops (must not fail when retained bytes + 6 KiB fit) and the retry of every refused host request after an explicit collection.",
          "DESIGN.md section 4, C05"),
  "C06": ("exploration", "differential testing against a by-reference-cell reference interpreter with a closure-biased program generator (proptest-driven)",
          "Same differential as C01 with a generator that creates closures in frames above other values, in loop bodies, nested, in a submodule, and calls each stored closure twice around a write to a visible variable (also through re-entering natives); every closure body logs a unique tag so a wrong body is visible; the reference uses shared Rc cells with a fresh cell per scope entry.",
